@@ -201,6 +201,12 @@ class Objects:
         if base.kind == "strrow":
             return Opaque("str")
         if base.kind == "yamldoc":
+            # a sub-document remembers where it was read (document, keys) and which state of the document it was read
+            # in (the state changes whenever a piece of a document is handed to a called function, which may pop keys)
+            path = base.get("path")
+            sl = node.slice
+            if path is not None and isinstance(sl, ast.Constant) and isinstance(sl.value, (str, int)):
+                return Opaque("yamldoc", path=path + (repr(sl.value),), ver=st.ghost.get("__yamlver__", 0))
             return Opaque("yamldoc")
         if base.kind == "argwhere":
             idx = base.get("idx")
@@ -346,7 +352,9 @@ def _install():
 
     def b_yaml_safe_load(self, ex, st, args, kwargs, node):
         """yaml.safe_load(file): an opaque document; subscripting it gives opaque sub-documents."""
-        return Opaque("yamldoc")
+        n = st.ghost.get("__yamldocs__", 0)
+        st.ghost["__yamldocs__"] = n + 1
+        return Opaque("yamldoc", path=("doc%d" % n,), ver=st.ghost.get("__yamlver__", 0))
 
     def b_yaml_dump(self, ex, st, args, kwargs, node):
         """yaml.dump(value, file): the value is recorded, in order, as what the function wrote (ghost `dumped`)."""
